@@ -343,5 +343,38 @@ def rule_c(ctx: Ctx) -> None:
                 'the wildcard implementations that consume them.')
 
 
-RULES = [rule_a, rule_b, rule_c]
+def rule_d(ctx: Ctx) -> None:
+    """Interleaved open content: a child is handed to the open-content wildcard only after *every* declaration of the current
+    group that matches its name was found saturated (a universal check: exhaustion of a loop over the group's declarations)."""
+    rule = 'C01.d'
+    from ..index import AnalysisError
+    from .common import reach_cut
+    f = ctx.idx.method('xmlschema.validators.models.InterleavedModelVisitor', 'match_element')
+    ctx.analysed(f.qualname)
+    g = cfg_of(ctx, f)
+    gives = [n for n in g.nodes if isinstance(n.ast, ast.Return) and n.kind not in ('entry', 'exit', 'raise_exit')
+             and n.ast.value is not None and text(n.ast.value) == 'self.wildcard']
+    ctx.floor(rule, 'hand-overs to the open-content wildcard', len(gives), 1)
+    loops = []
+    for n in g.nodes:
+        if n.kind != 'for' or text(n.ast.iter) not in ('self.group.elements', 'self.group.iter_elements()', 'iter(self.group.elements)'):
+            continue
+        v = text(n.ast.target)
+        # the body refuses (returns None / the declaration) when a matching declaration can still take the child
+        refus = [r for r in ast.walk(n.ast) if isinstance(r, ast.Return) and any(r is x for b in n.ast.body for x in ast.walk(b))]
+        tests = [text(t.test) for b in n.ast.body for t in ast.walk(b) if isinstance(t, ast.If)]
+        if refus and any(f'{v}.is_matching(' in t for t in tests) and any(f'{v}.is_over(' in t for t in tests):
+            loops.append(n)
+    for r in gives:
+        ok = bool(loops) and r not in reach_cut(g, [g.entry], {(lp, 'F') for lp in loops})
+        ctx.ob(rule, 'InterleavedModelVisitor.match_element: the wildcard takes a child only after the loop over all declarations of the group '
+               'found every matching one saturated', f.loc(r.ast), ok,
+               '' if ok else 'a path reaches `return self.wildcard` without the exhaustion of a loop over self.group.elements that refuses on a matching, '
+               'unsaturated declaration: with a name declared twice in the group (a, b?, a) the second occurrence is swallowed by the open content',
+               key='interleave|wildcard-after-all-declarations')
+    ctx.explain('C01.d: every `return self.wildcard` of InterleavedModelVisitor.match_element is reachable only through the exhaustion '
+                'edge of a for-loop over the group declarations whose body refuses on a matching declaration that is not over.')
+
+
+RULES = [rule_a, rule_b, rule_c, rule_d]
 THOROUGH = [thorough_a]
